@@ -441,6 +441,12 @@ func c16Run(s *c16Scn, enc *json.Encoder, mu *sync.Mutex) verdict {
 		}
 	}
 
+	if s.Transport == "standard" && s.ID%4 == 1 {
+		// the session has been up for longer than the socket timeout (2 s) before anything is written: that timeout bounds
+		// connecting, not the life of the session
+		time.Sleep(2200 * time.Millisecond)
+	}
+
 	rec.add(map[string]interface{}{"ev": "sent", "dir": "s2c", "total": len(s2c)})
 	rec.add(map[string]interface{}{"ev": "sent", "dir": "c2s", "total": len(c2s)})
 
